@@ -102,6 +102,32 @@ pub fn header_faults(orig: &[u8], reduced: bool) -> Vec<(String, HeaderEdit)> {
                 }
             }
             if !reduced {
+                // the key itself, reshaped: brackets swapped, doubled, missing, out of order, empty; and extra unknown lines
+                // with such keys next to the intact line
+                let (main, sub) = match (k.find('['), k.rfind(']')) {
+                    (Some(a), Some(b)) if a < b => (&k[..a], &k[a + 1..b]),
+                    _ => (k, "X"),
+                };
+                for nk in [
+                    format!("{}]{}[", main, sub),
+                    format!("{}]{}[{}", main, sub, sub),
+                    format!("]{}[", sub),
+                    format!("{}[{}", main, sub),
+                    format!("{}]{}", main, sub),
+                    format!("{}[[{}]]", main, sub),
+                    format!("{}[]", main),
+                    format!("{}][", main),
+                    format!("[{}]", sub),
+                    "[".to_string(),
+                    "]".to_string(),
+                    String::new(),
+                ] {
+                    out.push((format!("key line{} -> {:?}", li, nk), HeaderEdit::Replace(li, format!("{}:{}", nk, r))));
+                }
+                if li % 4 == 1 {
+                    out.push((format!("extra line after line{} with key NOTE]old[new", li), HeaderEdit::Replace(li, format!("{}\nNOTE]old[new:1", line))));
+                    out.push((format!("extra line after line{} with key ]x[", li), HeaderEdit::Replace(li, format!("{}\n]x[:0-0", line))));
+                }
                 out.push((format!("empty value line{}", li), HeaderEdit::Replace(li, format!("{}:", k))));
                 out.push((format!("no colon line{}", li), HeaderEdit::Replace(li, k.to_string())));
                 out.push((format!("text value line{}", li), HeaderEdit::Replace(li, format!("{}:abc,\"d-e\"", k))));
@@ -542,7 +568,7 @@ pub fn child(args: &[String]) -> i32 {
 
 pub fn run(tier: Tier) -> i32 {
     let rep = Report::new("C18", tier, "fault_enumeration");
-    rep.set_rule("fault enumeration on 6 generated voice files (about 2-4 kB: 2/3 streams, GV on/off, single-leaf and 3-leaf trees, quoted/unquoted leaves) and the bundled voice: singles = truncation (every byte offset on generated files; every section/range boundary +-1 and a 64-point lattice on V0), every header number replaced by each of 17 values (incl. non-ASCII Unicode digits), every header line deleted/duplicated/emptied, every range inverted, every pair of ranges swapped, tree/question/window tokens renamed or removed (every occurrence on generated files), every number inside window rows (and, on generated files, inside tree text) replaced by each of {0, 4e18, 1e12, a 20-digit number, -1} with the ranges rewritten to match, every tree's brace block emptied or cut down to its first node line, the duration tree replaced by a ladder of 40 diamonds (a DAG with 2^40 paths), runs of 3000 and 2000000 empty lines inside each header section, 200000 GV-off patterns, 26 question patterns with numeric fields at the ends of their ranges (255, 127, -128, 25?, 99?, ...) as GV-off pattern and as first tree question, every text byte of generated files replaced by each of 9 bytes, NUL/0xFF/partial-UTF-8 bytes in every header section, PDF count words overwritten; doubles (thorough; first generated file in quick) = all pairs of reduced header faults on different lines, reduced header fault x truncation (stride 7), reduced header fault x token fault; each case loaded via the real loader + VoiceSet + Condition::load_model in a child process (RLIMIT_AS 3 GiB, 90 s per case); distinct = distinct fault; non-trivial = faulted bytes differ from the base");
+    rep.set_rule("fault enumeration on 6 generated voice files (about 2-4 kB: 2/3 streams, GV on/off, single-leaf and 3-leaf trees, quoted/unquoted leaves) and the bundled voice: singles = truncation (every byte offset on generated files; every section/range boundary +-1 and a 64-point lattice on V0), every header number replaced by each of 17 values (incl. non-ASCII Unicode digits), every header line deleted/duplicated/emptied, every header key reshaped in 12 ways (brackets swapped, doubled, missing, out of order, empty) and unknown lines with such keys added, every range inverted, every pair of ranges swapped, tree/question/window tokens renamed or removed (every occurrence on generated files), every number inside window rows (and, on generated files, inside tree text) replaced by each of {0, 4e18, 1e12, a 20-digit number, -1} with the ranges rewritten to match, every tree's brace block emptied or cut down to its first node line, the duration tree replaced by a ladder of 40 diamonds (a DAG with 2^40 paths), runs of 3000 and 2000000 empty lines inside each header section, 200000 GV-off patterns, 26 question patterns with numeric fields at the ends of their ranges (255, 127, -128, 25?, 99?, ...) as GV-off pattern and as first tree question, every text byte of generated files replaced by each of 9 bytes, NUL/0xFF/partial-UTF-8 bytes in every header section, PDF count words overwritten; doubles (thorough; first generated file in quick) = all pairs of reduced header faults on different lines, reduced header fault x truncation (stride 7), reduced header fault x token fault; each case loaded via the real loader + VoiceSet + Condition::load_model in a child process (RLIMIT_AS 3 GiB, 90 s per case); distinct = distinct fault; non-trivial = faulted bytes differ from the base");
     rep.assume("at most two simultaneous faults; V0's binary PDF payload is only truncated and overwritten at its count words");
     let b = bases();
     let outcomes: Mutex<BTreeMap<String, (u64, String)>> = Mutex::new(BTreeMap::new());
